@@ -33,6 +33,7 @@ class Ob(object):
         self.unwind = kw.pop('unwind', None)
         self.tier_unwind = kw.pop('tier_unwind', {})
         self.unwindset = kw.pop('unwindset', {})
+        self.unwind_funcs = kw.pop('unwind_funcs', {})
         self.flags = kw.pop('flags', [])
         self.tiers = kw.pop('tiers', ('quick', 'thorough'))
         self.termination = kw.pop('termination', False)
@@ -236,14 +237,20 @@ class Runner(object):
 
     # ------------------------------------------------------------------ run
     def cbmc_cmd(self, ob, gb, witness):
-        cmd = ['cbmc', gb, '--function', ob.entry, '--json-ui']
+        cmd = ['cbmc', gb, '--function', ob.entry if ob.engine == 'c' else 'verif_entry', '--json-ui']
         cmd += CBMC_BASE
         uw = ob.the_unwind(self.tier)
         if uw is not None:
             cmd += ['--unwind', str(uw)]
-        if ob.unwindset:
-            cmd += ['--unwindset', ','.join('%s:%d' % kv for kv in ob.unwindset.items())]
+        uws = dict(ob.unwindset)
+        if ob.unwind_funcs:
+            uws.update(self.loops_of(gb, ob.unwind_funcs))
+        if uws:
+            cmd += ['--unwindset', ','.join('%s:%d' % kv for kv in sorted(uws.items()))]
         cmd += ob.flags
+        if ob.engine == 'ir':
+            # -O1 IR forms out-of-object pointers speculatively (select of &a[i-1]); the check is meaningless there
+            cmd = [c for c in cmd if c != '--pointer-overflow-check']
         if witness:
             cmd = [c for c in cmd if c not in ('--unwinding-assertions', '--pointer-overflow-check')]
             cmd += ['--no-standard-checks', '--no-unwinding-assertions', '--no-built-in-assertions']
@@ -323,7 +330,7 @@ class Runner(object):
             tail = ' | '.join(t for _, t in msgs[-4:]) or (errt or out)[-800:]
             res.reason = 'cbmc gave no result (rc=%s): %s' % (rc, tail[-800:])
             return
-        res.functions = self.reachable_functions(gb, ob.entry)
+        res.functions = self.reachable_functions(gb, ob.entry if ob.engine == 'c' else 'verif_entry')
         res.n_props = len(props)
         failed = []
         for p in props:
@@ -386,6 +393,18 @@ class Runner(object):
             if bad:
                 res.status = 'inconclusive'
                 res.reason = 'VACUOUS: witness not reachable: ' + '; '.join(p.get('description', '') for p in bad)
+
+    def loops_of(self, gb, funcs):
+        """unwindset entries for every loop of the functions matched by the regex keys of funcs"""
+        rc, out, err, w, rss, to = sh(['goto-instrument', '--show-loops', gb], timeout=300)
+        r = {}
+        for m in re.finditer(r'^Loop (\S+):', out, re.M):
+            lid = m.group(1)
+            fn = lid.rsplit('.', 1)[0]
+            for pat, n in funcs.items():
+                if re.search(pat, fn):
+                    r[lid] = max(n, r.get(lid, 0))
+        return r
 
     def reachable_functions(self, gb, entry):
         rc, out, err, w, rss, to = sh(['goto-instrument', '--call-graph', gb], timeout=120)
